@@ -79,6 +79,7 @@ FAMILIES = {
     "camel": {"module": "CamelCase", "judge": "CamelCaseTrace"},
     "typeref": {"module": "TypeRef", "judge": "TypeRefTrace"},
     "template": {"module": "Template", "judge": "TemplateTrace"},
+    "comments": {"module": "Comments", "judge": "CommentsTrace"},
     "inflect": {"module": "Inflector", "judge": "InflectorTrace", "race": True},
 }
 
@@ -202,6 +203,44 @@ def check_C09(ctx):
     ], fails)
 
 
+def check_C12(ctx):
+    t = ctx.tier
+    gens = ["Comments_gen%s_%s.cfg" % (k, t) for k in ("Tag", "List", "Lay")]
+    res = run_family(ctx, "comments", "Comments", gens, "CommentsTrace", rand_n=2000 if ctx.quick() else 20000,
+                     a_cfgs=["Comments_A_%s.cfg" % t, "Comments_A2_%s.cfg" % t], shard=6000)
+    fails = vlib.collect_failures(res["trace"], res["bad"], "comments", only_prefix="C12")
+    tr = res["trace"]
+
+    def nontrivial(r):
+        c = r["case"]
+        if c["part"] == "tags":
+            return any(43 in ln or 64 in ln or 35 in ln for ln in c["lines"])
+        lay = c["layout"]
+        return any(k in "DTM" for k in lay) and any(k in "CGKTM" for k in lay)
+    cov = {
+        "traces_validated_against_impl": len(tr),
+        "evaluations": len(tr),
+        "distinct_nontrivial": _distinct(tr, nontrivial, key=lambda r: json.dumps(r["case"], sort_keys=True)),
+        "rule": "TLC enumerates (1) every comment line over {space,+,@,=,k,v} up to the tier length and all 2-3 line lists over 8 interesting lines, run through "
+                "ExtractCommentTags; (2) every layout of blank / comment / tag / block-comment / declaration / declaration-with-trailing-comment / two-name "
+                "declaration lines up to the tier length in each of 5 contexts (ungrouped, type(), const(), var(), struct body); layouts are written as real Go source "
+                "(400 per package), loaded with gengo's types.Load, and Doc/Comment are queried for every declared object found through go/types. Plus random longer "
+                "lists (custom markers) and layouts. Non-trivial = distinct cases with a marker character (tags) or with both a declaration and a comment (layouts).",
+        "exhaustive": True,
+        "layouts": sum(1 for r in tr if r["case"]["part"] == "layout"),
+        "declarations_queried": sum(len(r["obs"].get("decls", [])) for r in tr if r["case"]["part"] == "layout"),
+        "samples": [{"case": vlib.pretty(r["case"]), "source": r["conc"].get("source"), "obs": vlib.pretty(r["obs"])}
+                    for r in (tr[:: max(1, len(tr) // 4)][:3] + [x for x in tr if x["case"]["part"] == "layout"][-2:])],
+        "abstract_cases": res["n_cases"],
+    }
+    return vlib.finish(ctx, "model_checking", cov, [
+        "comment texts are canonical (one space after //, no trailing blanks, not starting with go:, single-line block comments)",
+        "only own-line comment groups and trailing comments of declarations are generated; comments trailing a '(' or '{' line are not (statement silent)",
+        "other (non-tag) lines are compared after trimming spaces on both sides",
+        "tabs are not part of the tag-line alphabet ('trimming spaces')",
+    ], fails)
+
+
 def check_C20(ctx):
     t = ctx.tier
     vlib.build_harness_race(ctx)
@@ -239,6 +278,7 @@ def check_C20(ctx):
 
 CHECKS = {
     "C09": check_C09,
+    "C12": check_C12,
     "C15": check_C15,
     "C19": check_C19,
     "C20": check_C20,
